@@ -41,6 +41,10 @@ def run(ctx, rep):
     r4(prog, ev, rep)
     from rules import shared
     shared.literal_exact(prog, ev, rep, "C14-R5")
+    # the hook's null answer must read as false: the truth of a function test is the logical result itself
+    from vflib.report import Shared
+    from rules import c05
+    c05.r3_r4(prog, ev, Shared(rep, {"C05-R3": "C14-R6"}, lender="C05", only_keys=["FilterAtom::Test"]))
 
 
 def _walkall(x):
